@@ -272,6 +272,25 @@ def run(ctx):
                "an element is kept iff (filter term unifies with it) == flag; the kept value is the tested element (%d pushes)" % npush)
         ctx.ob("R3", "binds-nothing(%s)" % G.npath, okb and ntest > 0, ctx.where(G), whyb or
                "the set of each trial unification is only tested for Some / None (%d tests)" % ntest)
+    # the walks and the built-ins read bindings through the resolvers of the substitution-set module, never by indexing
+    fns_ = {b.path: b for b, h, bl in ws}
+    for name in ("count", "include", "exclude"):
+        for fp in cells.get(name, ()):
+            fb = next((b for b in prog.lib_bodies() if b.path == fp), None)
+            if fb is not None:
+                fns_[fb.path] = fb
+                for h in prog.private_callees(fb):
+                    fns_[h.path] = h
+    for gp in filters:
+        G = next(b for b in prog.lib_bodies() if b.path == gp)
+        fns_[G.path] = G
+        for h in prog.private_callees(G):
+            fns_[h.path] = h
+    raw = listwalk.raw_binding_reads(prog, list(fns_.values()))
+    ctx.ob("R1", "bindings-through-resolvers", not raw, ctx.where(raw[0][0], raw[0][1]) if raw else "",
+           ("%s reads a binding by indexing the substitution set itself (line %d): a chain of variables is followed one step only"
+            % (raw[0][0].npath, raw[0][1])) if raw else
+           "none of %d list walks / built-in functions indexes the substitution set; variables are resolved by the module's resolvers" % len(fns_))
     # ---- R4 = C15/R1-R2 for the filter: the filtered list is built by a builder that keeps every element ---------------
     import importlib
     c15 = importlib.import_module("rules.C15")
